@@ -416,6 +416,19 @@ func hpairsBase() []hpair {
 				es, _ := w.dbase.Entities()
 				return fmt.Sprintf("lookup afterwards fails: %v, %d entities listed", err != nil, len(es))
 			}},
+		{"two entities are saved at the same time through one database object; each is stored with its own key", "C18 C02",
+			func(w *hworld) { w.dbase, _ = db.NewDatabase(filepath.Join(w.dir, "db2")) },
+			func(w *hworld) string {
+				return fmt.Sprint(w.dbase.SaveEntity(db.NewEntity("controller-one", pat(32, 1), nil)))
+			},
+			func(w *hworld) string {
+				return fmt.Sprint(w.dbase.SaveEntity(db.NewEntity("controller-two", pat(32, 2), pat(64, 3))))
+			},
+			func(w *hworld) string {
+				a, ea := w.dbase.EntityWithName("controller-one")
+				b, eb := w.dbase.EntityWithName("controller-two")
+				return fmt.Sprintf("%v %s %s | %v %s %s", ea, a.Name, h(a.PublicKey), eb, b.Name, h(b.PublicKey))
+			}},
 		{"an entity is replaced while it is looked up; afterwards the new key is returned", "C18 C02 C04",
 			func(w *hworld) {
 				w.dbase, _ = db.NewDatabase(filepath.Join(w.dir, "db2"))
